@@ -1,10 +1,27 @@
 #!/bin/bash
-# MANIFEST.setup_cmd: rebuild the whole Coq development from files on disk (full .vo build).
-set -e
+# MANIFEST.setup_cmd: rebuild the whole Coq development from files on disk (full .vo build, no -vos).
+# Exit status: 0 when every theorem file of every REGISTERED check (MANIFEST.json) has been built;
+# files of work in progress that do not compile yet are reported but do not fail the setup.
 cd "$(dirname "$0")"
 mkdir -p work evidence
-/venv/bin/python tools/gen_tables.py --repo "${DCMSTACK_REPO:-/repo}"
+/venv/bin/python tools/gen_tables.py --repo "${DCMSTACK_REPO:-/repo}" || echo "setup: some table translators failed (see above)"
 cd coq
 { echo "-Q . DV"; find . -name '*.v' | sed 's|^\./||' | LC_ALL=C sort; } > _CoqProject
-coq_makefile -f _CoqProject -o Makefile > /dev/null
-timeout 3000 make -j16
+coq_makefile -f _CoqProject -o Makefile > /dev/null || exit 2
+timeout 3300 make -k -j16 > ../work/setup_make.log 2>&1
+rc=$?
+[ $rc -ne 0 ] && { echo "setup: make -k reported errors:"; grep -E '^(File|Error|make.*Error)' ../work/setup_make.log | head -20; }
+cd ..
+PYTHONPATH=/verif /venv/bin/python - <<'PY'
+import json, importlib, os, sys
+m = json.load(open('MANIFEST.json'))
+missing = []
+for c in m['checks']:
+    pl = importlib.import_module('props.' + c['property_id'].lower())
+    files = pl.COQ_PROPS if isinstance(pl.COQ_PROPS, (list, tuple)) else [pl.COQ_PROPS]
+    for f in files:
+        if not os.path.exists(os.path.join('coq', f + 'o')):
+            missing.append(f)
+print('setup: %d registered checks, theorem files missing: %s' % (len(m['checks']), missing or 'none'))
+sys.exit(1 if missing else 0)
+PY
